@@ -50,15 +50,21 @@ func Ident(always bool, start, inc int64) ColOpt {
 // OnUpdate sets the MySQL ON UPDATE expression.
 func OnUpdate(x string) ColOpt { return func(c *Column) { c.OnUpdate = x } }
 
-// P is a plain ascending column part, PD a descending one, PX an expression part reading cols.
-func P(col string) Part  { return Part{Col: col} }
+// P is a plain ascending column part.
+func P(col string) Part { return Part{Col: col} }
+
+// PD is a descending column part.
 func PD(col string) Part { return Part{Col: col, Desc: true} }
+
+// PX is an expression part reading cols.
 func PX(expr string, cols ...string) Part {
 	return Part{Expr: expr, ExprCols: cols}
 }
 
-// Idx builds a non-unique index, Uniq a unique one.
-func Idx(name string, parts ...Part) *Index  { return &Index{Name: name, Parts: parts} }
+// Idx builds a non-unique index.
+func Idx(name string, parts ...Part) *Index { return &Index{Name: name, Parts: parts} }
+
+// Uniq builds a unique index.
 func Uniq(name string, parts ...Part) *Index { return &Index{Name: name, Unique: true, Parts: parts} }
 
 // FK builds a single- or multi-column foreign key.
@@ -195,6 +201,7 @@ func handPool(d Dialect) []*Model {
 			&Index{Name: "i7", Type: "BRIN", PagesPerRange: 64, Parts: []Part{P("c6")}},
 			&Index{Name: "i8", Unique: true, NullsNotDist: true, Include: []string{"c2", "c3"}, Parts: []Part{P("c8")}},
 			&Index{Name: "i9", Parts: []Part{{Col: "c7", NullsFirst: &first}, PD("c6")}},
+			&Index{Name: "i10", Parts: []Part{{Col: "c2", Ops: "text_pattern_ops"}, P("c3")}},
 		)
 	default:
 		ix.Indexes = append(ix.Indexes,
